@@ -830,7 +830,7 @@ def run(ck):
     nmax, slen = (5, 6) if thorough else (4, 5)
     subs = {n: subjects([0x61, 0x62, 0x0a], n) for n in (2, 3, 4, 5, 6)}
     trees = [(t, n) for n in range(1, nmax + 1) for t in enum_trees(n)]
-    ck.cov["exhaustive"] = {"max_nodes": nmax, "trees": len(trees), "subject_maxlen": slen,
+    ck.cov["bounded_exhaustive"] = {"max_nodes": nmax, "trees": len(trees), "subject_maxlen": slen,
                             "subjects": len(subs[slen])}
     npat = [0]
     rot = ck.seed
@@ -879,7 +879,7 @@ def run(ck):
         rn.run_x(ch, "exhaustive")
         if enough():
             return
-    ck.cov["exhaustive"]["patterns_rendered"] = npat[0]
+    ck.cov["bounded_exhaustive"]["patterns_rendered"] = npat[0]
 
     # ---- ICASE slice: letters in both cases, exhaustive small
     lines = []
